@@ -1,12 +1,12 @@
 SPECIFICATION MCSpec
 CONSTANTS
   Colls = {"P", "S"}
-  Actors = {w1, w2, sn, rs, rep}
-  Writers = {w1, w2}
+  Actors = {w1, sn, sn2, rs, rep}
+  Writers = {w1}
   Snap = sn
   SnapFails = @SNAPFAILS@
-  Snap2 = "none"
-  RstFile = "f"
+  Snap2 = sn2
+  RstFile = "@RSTFILE@"
   Rst = rs
   Rep = rep
   Offsets = {0, 1, 2}
@@ -31,6 +31,5 @@ CONSTANTS
   LateInitSel = TRUE
   Late <- LateNone
   ReplayAtEnd = @ATEND@
-SYMMETRY WriterSymmetry
 INVARIANTS RecorderClean ConsistentCut FillAccounting ReadBack IndexCoherent NoCollision OccupiedIsLive NoStaleValues StreamIds Converged
 PROPERTIES RollbackNoTrace
